@@ -531,7 +531,7 @@ def runOp (w : World) (c : TCtl) (op : Op) : Except Panic World := do
     | _ => w.primStart x (.load o)
   | .ifEq i r n =>
     let t := w.tid
-    if c.results.lookup i == some r then pure (w.modCtl t fun c => { c with pc := c.pc + 1 })
+    if c.results.lookup (c.pc - i) == some r then pure (w.modCtl t fun c => { c with pc := c.pc + 1 })
     else pure (w.modCtl t fun c => { c with pc := c.pc + 1 + n })
   | .send qi v =>
     let o := w.chanObj qi
